@@ -88,7 +88,7 @@ Section Tie.
   Proof.
     unfold SlidingWindowPolicy_try_acquire, SlidingWindowPolicy__prune, sw_acquire, sw_wn.
     destruct s as [ws n log]; cbn. rewrite dropwhile_prune.
-    destruct (Z.of_nat (length (sw_prune (now - nanos O ws) log)) <? n); cbn; repeat split; reflexivity.
+    tie_split; tie_close.
   Qed.
 
   (** [time_until_available]: reading [self._request_log[0]] raises IndexError on an empty log
@@ -102,9 +102,8 @@ Section Tie.
   Proof.
     unfold SlidingWindowPolicy_time_until_available, SlidingWindowPolicy__prune, sw_tua, sw_wn, guard.
     destruct s as [ws n log]; cbn. intros Hn. rewrite dropwhile_prune.
-    destruct (Z.of_nat (length (sw_prune (now - nanos O ws) log)) <? n) eqn:E; cbn; [eexists; repeat split; reflexivity|].
-    destruct (sw_prune (now - nanos O ws) log) as [|oldest rest] eqn:El; cbn in *; [lia|].
-    destruct (nanos O (secs O (oldest + nanos O ws - now)) =? 0); eexists; repeat split; reflexivity.
+    destruct (sw_prune (now - nanos O ws) log) as [|oldest rest] eqn:El; cbn in *;
+      tie_split; try (exfalso; lia); cbn; eexists; repeat split; first [reflexivity | (exfalso; lia) | lia].
   Qed.
 
   (* ---------------------------------------------------------------- *)
@@ -116,16 +115,21 @@ Section Tie.
 
   Lemma tie_fw_window_start s now :
     FixedWindowPolicy__get_window_start O s now = fw_window_start (fw_wn s) now.
-  Proof. reflexivity. Qed.
+  Proof.
+    first [reflexivity
+          | unfold FixedWindowPolicy__get_window_start, fw_window_start, fw_wn; cbv beta zeta; tie_split;
+            first [rewrite Z.max_l by lia | rewrite Z.max_r by lia | idtac]; ring].
+  Qed.
 
   Lemma tie_fw_reset s now :
     let s' := fst (FixedWindowPolicy__maybe_reset O s now) in
     fw_abs s' = fw_reset (fw_wn s) (fw_abs s) now /\ fw_cfg s' = fw_cfg s.
   Proof.
     destruct s as [n ws [c|] cnt];
-      unfold FixedWindowPolicy__maybe_reset, FixedWindowPolicy__get_window_start, fw_reset, fw_abs, fw_cfg, fw_wn, fw_window_start;
-      cbn; [|split; reflexivity].
-    rewrite Z.gtb_ltb. match goal with |- context [if ?b then _ else _] => destruct b end; cbn; split; reflexivity.
+      match goal with |- context [FixedWindowPolicy__maybe_reset O ?s0 now] => pose proof (tie_fw_window_start s0 now) as Hws end;
+      unfold FixedWindowPolicy__maybe_reset, fw_reset, fw_abs, fw_cfg; cbv beta zeta; rewrite Hws;
+      unfold fw_wn; cbn -[fw_window_start]; [|split; reflexivity].
+    tie_split; tie_close.
   Qed.
 
   Lemma tie_fw_acquire s now :
